@@ -18,6 +18,11 @@ func init() {
 	Registry["C14"] = Spec{
 		Pkgs: map[string][]string{"v2": {"resolve", "postprocess", "plan"}},
 		Run:  runC14,
+		Thorough: func(r *fw.Run) {
+			workspaceWhoMayCall(r, []wsCallRule{
+				{Rule: "C14-T1", What: "resolve.DataSource.Load / LoadWithFiles are called only by Loader.loadByContextDirect (behind the pre-fetch gate chain)", Callees: []string{"resolve:DataSource.Load", "resolve:DataSource.LoadWithFiles"}, Allowed: []string{"resolve:Loader.loadByContextDirect"}, Why: "a data source is loaded from outside the loader's gated path: the request leaves without the pre-fetch authorization / rate-limit gate, without the single flight and without the cache — a denied mutation reaches the subgraph", Expected: 2},
+			})
+		},
 		Explanation: "Decides the structural half of 'denied fields never reach the client, denied mutations never reach a subgraph': DataSource.Load/LoadWithFiles are reachable only through loadByContextDirect ← loadByContext ← executeSourceLoad ← loadPhase (who-may-call over resolved callees); the load is dominated by !skipLoad; " +
 			"every normal exit of each prepare*Fetch either set skipLoad or passed the allowed edge of the pre-fetch gate, which authorizes before it rate-limits; the cache-based gate refuses non-queries with any denied root field and queries with all denied; " +
 			"in the response walk each field value is walked only after authorizeField returned 'allow' (pre-walk) and authorizeField allows without a decision only on its four documented edges and denies only after recording an error; " +
